@@ -13,6 +13,7 @@ from hypothesis import strategies as st
 import common
 import farm
 import farmcheck
+import zoo
 import expmodel
 import p21gen
 import p21render
@@ -63,11 +64,32 @@ def gen_faults(sch, pop):
         if sl["derived"]:
             yield dict(base, cls="value-on-derived", token={"INTEGER": "5", "REAL": "1.5", "NUMBER": "2.5", "STRING": "'v'", "BOOLEAN": ".T.", "LOGICAL": ".T."}.get(kind, "5"))
             continue
-        yield dict(base, cls="param-removed")
+        if not last_slot_optional(sch, inst, pi):
+            # with an OPTIONAL last attribute a removed parameter is indistinguishable from "the last value is empty",
+            # which C15 says is accepted for OPTIONAL attributes - not asserted here
+            yield dict(base, cls="param-removed")
         yield dict(base, cls="param-duplicated")
         cur = inst["parts"][pi]["vals"][si]
         for tok in WRONG.get(kind, []):
             yield dict(base, cls="wrong-kind:%s<-%s" % (kind, tok_kind(tok)), token=tok)
+        if kind == "ENUMERATION":
+            # near misses of declared items: a proper prefix, an extension, an item of another enumeration
+            items = [i.upper() for i in sch.resolve(sl["type"])[2]]
+            near = []
+            for it in items:
+                for cand in (it[:-1], it[:1], it + "X", it + "_"):
+                    if cand and cand not in items and cand not in near and (cand[0].isalpha()):
+                        near.append(cand)
+            for t2 in sch.d["types"]:
+                if t2["kind"] == "enum":
+                    for it in t2["items"]:
+                        if it.upper() not in items and it.upper() not in near:
+                            near.append(it.upper())
+            for cand in near[:6]:
+                yield dict(base, cls="enum-item-near-miss", token="." + cand + ".")
+        if kind in ("BOOLEAN", "LOGICAL"):
+            for cand in ([".TRUE.", ".X.", ".TF."] + ([".U."] if kind == "BOOLEAN" else [])):
+                yield dict(base, cls="%s-item-near-miss" % kind.lower(), token=cand)
         yield dict(base, cls="star-on-non-derived", token="*")
         if kind == "AGGREGATE" and not sl["optional"]:
             yield dict(base, cls="required-aggregate-null", token="$")
@@ -108,6 +130,15 @@ def gen_faults(sch, pop):
         yield {"cls": "missing-close-paren", "inst": ii, "ipos": where, "complex": inst["complex"]}
         if any(v[0] == "s" for p in inst["parts"] for v in p["vals"]):
             yield {"cls": "unterminated-string", "inst": ii, "ipos": where, "complex": inst["complex"]}
+
+
+def last_slot_optional(sch, inst, pi):
+    part = inst["parts"][pi]
+    if inst["complex"]:
+        slots = sch.part_slots(part["ent"], [p["ent"] for p in inst["parts"]])
+    else:
+        slots = sch.p21_slots(part["ent"])
+    return bool(slots) and (slots[-1]["optional"] and not slots[-1]["derived"])
 
 
 def tok_kind(tok):
@@ -322,7 +353,7 @@ def main(tier, seed):
                          case_fn=case,
                          confirm_fn=lambda lib, f, wd: bool(oracle(lib, f["pop"], f["text"], f["faulted"], f["trunc"], wd, "confirm")),
                          replay_files=lambda f: {"input.p21": f["text"], "case.json": json.dumps({"pop": f["pop"], "faulted": f["faulted"], "trunc": f["trunc"], "fault": f["fault"]})},
-                         schema_cfg=c01.SCHEMA_CFG, min_cases=300)
+                         schema_cfg=c01.SCHEMA_CFG, extra_schemas=[zoo.ZOO], min_cases=300)
 
 
 def replay(path):
